@@ -518,6 +518,9 @@ def c08_cases():
     C.append(SpecCase('Mk2', 'func Mk2(n, m int) []int32 { return make([]int32, n, m) }', [('n', 'int32'), ('m', 'int32')],
                       lambda ex, st, P: z3.Or(P['n'] < 0, P['m'] < P['n']), None,
                       lambda ex, st0, st, P, r: [('len/cap', z3.And(r.fields['$length'] == P['n'], r.fields['$capacity'] == P['m'], z3.Not(r.fields['$nil'])))]))
+    C.append(SpecCase('MkMap', 'func MkMap(n int) map[int]int { return make(map[int]int, n) }', [('n', 'int32')],
+                      lambda ex, st, P: P['n'] < 0, 'makemap: size out of range',
+                      lambda ex, st0, st, P, r: [('not nil', z3.Not(r.fields['$nil']))]))
     return C
 
 K_ = z3.Int('k!frame')
